@@ -40,6 +40,7 @@ CONSTANTS
 
 VARIABLES
     hist,       \* accepted transactions, in the order commit returned
+    logical,    \* = StateAfter(hist, Len(hist)), maintained incrementally (redundant)
     calls,      \* number of commit calls made
     queue,      \* commit queue: Seq of [cid, h, tx]
     nextCid,    \* CommitQueue.record_id
@@ -62,7 +63,7 @@ VARIABLES
     lastRec,    \* result of the last completed recovery: [n, lo, ok]
     trace       \* history of steps (only when Gen)
 
-vars == <<hist, calls, queue, nextCid, covl, lw, nextRid, logs, rpos, lovl, cw,
+vars == <<hist, logical, calls, queue, nextCid, covl, lw, nextRid, logs, rpos, lovl, cw,
           lastEnacted, tabs, dtabs, flushedCq, durable, mode, rcv, ncrash, naux,
           lastRec, trace>>
 
@@ -113,7 +114,7 @@ Empty == [l \in Loc |-> Absent]
 RECURSIVE StateAfter(_, _)
 StateAfter(h, n) == IF n = 0 THEN Empty ELSE ApplyTx(StateAfter(h, n - 1), h[n])
 
-Logical == StateAfter(hist, Len(hist))
+Logical == logical
 
 Touched(tx) == { <<tx[i].c, tx[i].k>> : i \in 1..Len(tx) }
 
@@ -191,7 +192,7 @@ NoLog  == UNCHANGED trace
 
 ----------------------------------------------------------------------------
 Init ==
-    /\ hist = <<>> /\ calls = 0 /\ queue = <<>> /\ nextCid = 0
+    /\ hist = <<>> /\ logical = Empty /\ calls = 0 /\ queue = <<>> /\ nextCid = 0
     /\ covl = [l \in Loc |-> NoCovl]
     /\ lw = Idle /\ nextRid = 1 /\ logs = <<>> /\ rpos = 0
     /\ lovl = [l \in Loc |-> NoLovl]
@@ -211,6 +212,7 @@ Commit(tx) ==
     /\ calls' = calls + 1
     /\ nextCid' = nextCid + 1
     /\ hist' = Append(hist, tx)
+    /\ logical' = ApplyTx(logical, tx)
     /\ queue' = Append(queue, [cid |-> nextCid + 1, h |-> Len(hist) + 1, tx |-> tx])
     /\ covl' = CovlAdd(covl, nextCid + 1, tx, 1)
     /\ UNCHANGED <<lw, nextRid, logs, rpos, lovl, cw, lastEnacted, tabs, dtabs,
@@ -223,7 +225,7 @@ Reject(tx) ==
     /\ mode \in {"open", "err"} /\ calls < MaxCalls
     /\ (mode = "open") => ~ValidTx(tx)
     /\ calls' = calls + 1
-    /\ UNCHANGED <<hist, queue, nextCid, covl, lw, nextRid, logs, rpos, lovl, cw,
+    /\ UNCHANGED <<hist, logical, queue, nextCid, covl, lw, nextRid, logs, rpos, lovl, cw,
                    lastEnacted, tabs, dtabs, flushedCq, durable, mode, rcv, ncrash,
                    naux, lastRec>>
     /\ Log([a |-> "Commit", tx |-> tx, ok |-> FALSE, obs |-> Obs'])
@@ -243,7 +245,7 @@ PopAndPlan ==
                  rec |-> PlanRec(nextRid, c.h, c.cid, c.tx, View)]
        /\ queue' = Tail(queue)
        /\ nextRid' = nextRid + 1
-    /\ UNCHANGED <<hist, calls, nextCid, covl, logs, rpos, lovl, cw, lastEnacted, tabs,
+    /\ UNCHANGED <<hist, logical, calls, nextCid, covl, logs, rpos, lovl, cw, lastEnacted, tabs,
                    dtabs, flushedCq, durable, mode, rcv, ncrash, naux, lastRec>>
     /\ NoLog
 
@@ -253,7 +255,7 @@ EndRecord ==
     /\ logs' = AppendRec(lw.rec)
     /\ lovl' = LovlAdd(lovl, lw.rec)
     /\ lw' = [lw EXCEPT !.pc = "ended"]
-    /\ UNCHANGED <<hist, calls, queue, nextCid, covl, nextRid, rpos, cw, lastEnacted,
+    /\ UNCHANGED <<hist, logical, calls, queue, nextCid, covl, nextRid, rpos, cw, lastEnacted,
                    tabs, dtabs, flushedCq, durable, mode, rcv, ncrash, naux, lastRec>>
     /\ NoLog
 
@@ -262,7 +264,7 @@ CleanCovl ==
     /\ mode = "open" /\ Fine /\ lw.pc = "ended"
     /\ covl' = CovlClean(covl, lw.cid, lw.tx)
     /\ lw' = Idle
-    /\ UNCHANGED <<hist, calls, queue, nextCid, nextRid, logs, rpos, lovl, cw,
+    /\ UNCHANGED <<hist, logical, calls, queue, nextCid, nextRid, logs, rpos, lovl, cw,
                    lastEnacted, tabs, dtabs, flushedCq, durable, mode, rcv, ncrash,
                    naux, lastRec>>
     /\ NoLog
@@ -277,7 +279,7 @@ ProcessCommit ==
        /\ logs' = AppendRec(rec)
        /\ lovl' = LovlAdd(lovl, rec)
        /\ covl' = CovlClean(covl, c.cid, c.tx)
-    /\ UNCHANGED <<hist, calls, nextCid, lw, rpos, cw, lastEnacted, tabs, dtabs,
+    /\ UNCHANGED <<hist, logical, calls, nextCid, lw, rpos, cw, lastEnacted, tabs, dtabs,
                    flushedCq, durable, mode, rcv, ncrash, naux, lastRec>>
     /\ Log([a |-> "ProcessCommit", obs |-> Obs'])
 
@@ -288,7 +290,7 @@ AuxRecord ==
     /\ naux' = naux + 1
     /\ nextRid' = nextRid + 1
     /\ logs' = AppendRec([rid |-> nextRid, h |-> 0, cid |-> 0, w |-> <<>>])
-    /\ UNCHANGED <<hist, calls, queue, nextCid, covl, lw, rpos, lovl, cw, lastEnacted,
+    /\ UNCHANGED <<hist, logical, calls, queue, nextCid, covl, lw, rpos, lovl, cw, lastEnacted,
                    tabs, dtabs, flushedCq, durable, mode, rcv, ncrash, lastRec>>
     /\ Log([a |-> "AuxRecord", obs |-> Obs'])
 
@@ -299,7 +301,7 @@ FlushLog ==
     /\ mode = "open" /\ HasApp /\ LwIdle
     /\ logs' = [logs EXCEPT ![Len(logs)].st = "rq"]
     /\ durable' = IF SyncWal THEN Max(durable, MaxH(logs[Len(logs)].recs, 1)) ELSE durable
-    /\ UNCHANGED <<hist, calls, queue, nextCid, covl, lw, nextRid, rpos, lovl, cw,
+    /\ UNCHANGED <<hist, logical, calls, queue, nextCid, covl, lw, nextRid, rpos, lovl, cw,
                    lastEnacted, tabs, dtabs, flushedCq, mode, rcv, ncrash, naux, lastRec>>
     /\ Log([a |-> "FlushLog", obs |-> Obs'])
 
@@ -323,7 +325,7 @@ LogEof ==
        /\ rpos = Len(logs[f].recs)
        /\ logs' = [logs EXCEPT ![f].st = "cq"]
     /\ rpos' = 0
-    /\ UNCHANGED <<hist, calls, queue, nextCid, covl, lw, nextRid, lovl, cw, lastEnacted,
+    /\ UNCHANGED <<hist, logical, calls, queue, nextCid, covl, lw, nextRid, lovl, cw, lastEnacted,
                    tabs, dtabs, flushedCq, durable, mode, rcv, ncrash, naux, lastRec>>
     /\ Log([a |-> "EnactOne", obs |-> Obs'])
 
@@ -335,7 +337,7 @@ EnactBegin ==
                  todo |-> DOMAIN logs[n.f].recs[n.r].w]
        /\ logs' = IF logs[n.f].st = "rq" THEN [logs EXCEPT ![n.f].st = "rd"] ELSE logs
        /\ rpos' = n.r - 1
-    /\ UNCHANGED <<hist, calls, queue, nextCid, covl, lw, nextRid, lovl, lastEnacted,
+    /\ UNCHANGED <<hist, logical, calls, queue, nextCid, covl, lw, nextRid, lovl, lastEnacted,
                    tabs, dtabs, flushedCq, durable, mode, rcv, ncrash, naux, lastRec>>
     /\ NoLog
 
@@ -343,7 +345,7 @@ EnactWrite(l) ==
     /\ mode = "open" /\ Fine /\ cw.pc = "writing" /\ l \in cw.todo
     /\ tabs' = [tabs EXCEPT ![l] = cw.rec.w[l]]
     /\ cw' = [cw EXCEPT !.todo = @ \ {l}]
-    /\ UNCHANGED <<hist, calls, queue, nextCid, covl, lw, nextRid, logs, rpos, lovl,
+    /\ UNCHANGED <<hist, logical, calls, queue, nextCid, covl, lw, nextRid, logs, rpos, lovl,
                    lastEnacted, dtabs, flushedCq, durable, mode, rcv, ncrash, naux, lastRec>>
     /\ NoLog
 
@@ -351,7 +353,7 @@ EnactEnd ==
     /\ mode = "open" /\ Fine /\ cw.pc = "writing" /\ cw.todo = {}
     /\ lastEnacted' = cw.rec.rid
     /\ cw' = [cw EXCEPT !.pc = "written"]
-    /\ UNCHANGED <<hist, calls, queue, nextCid, covl, lw, nextRid, logs, rpos, lovl,
+    /\ UNCHANGED <<hist, logical, calls, queue, nextCid, covl, lw, nextRid, logs, rpos, lovl,
                    tabs, dtabs, flushedCq, durable, mode, rcv, ncrash, naux, lastRec>>
     /\ NoLog
 
@@ -361,7 +363,7 @@ EndRead ==
     /\ lovl' = LovlClean(lovl, cw.rec)
     /\ rpos' = rpos + 1
     /\ cw' = Idle
-    /\ UNCHANGED <<hist, calls, queue, nextCid, covl, lw, nextRid, logs, lastEnacted,
+    /\ UNCHANGED <<hist, logical, calls, queue, nextCid, covl, lw, nextRid, logs, lastEnacted,
                    tabs, dtabs, flushedCq, durable, mode, rcv, ncrash, naux, lastRec>>
     /\ NoLog
 
@@ -376,7 +378,7 @@ EnactOne ==
           /\ lastEnacted' = rec.rid
        /\ logs' = IF logs[n.f].st = "rq" THEN [logs EXCEPT ![n.f].st = "rd"] ELSE logs
        /\ rpos' = n.r
-    /\ UNCHANGED <<hist, calls, queue, nextCid, covl, lw, nextRid, cw, dtabs, flushedCq,
+    /\ UNCHANGED <<hist, logical, calls, queue, nextCid, covl, lw, nextRid, cw, dtabs, flushedCq,
                    durable, mode, rcv, ncrash, naux, lastRec>>
     /\ Log([a |-> "EnactOne", obs |-> Obs'])
 
@@ -388,7 +390,7 @@ FlushTables ==
     /\ mode = "open" /\ Fine /\ NumCq > flushedCq
     /\ dtabs' = tabs
     /\ flushedCq' = NumCq
-    /\ UNCHANGED <<hist, calls, queue, nextCid, covl, lw, nextRid, logs, rpos, lovl, cw,
+    /\ UNCHANGED <<hist, logical, calls, queue, nextCid, covl, lw, nextRid, logs, rpos, lovl, cw,
                    lastEnacted, tabs, durable, mode, rcv, ncrash, naux, lastRec>>
     /\ NoLog
 
@@ -398,7 +400,7 @@ TruncateLog ==
     /\ logs[1].st = "cq"
     /\ logs' = Tail(logs)
     /\ flushedCq' = flushedCq - 1
-    /\ UNCHANGED <<hist, calls, queue, nextCid, covl, lw, nextRid, rpos, lovl, cw,
+    /\ UNCHANGED <<hist, logical, calls, queue, nextCid, covl, lw, nextRid, rpos, lovl, cw,
                    lastEnacted, tabs, dtabs, durable, mode, rcv, ncrash, naux, lastRec>>
     /\ NoLog
 
@@ -408,7 +410,7 @@ Clean ==
     /\ dtabs' = tabs
     /\ logs' = SubSeq(logs, NumCq + 1, Len(logs))
     /\ flushedCq' = 0
-    /\ UNCHANGED <<hist, calls, queue, nextCid, covl, lw, nextRid, rpos, lovl, cw,
+    /\ UNCHANGED <<hist, logical, calls, queue, nextCid, covl, lw, nextRid, rpos, lovl, cw,
                    lastEnacted, tabs, durable, mode, rcv, ncrash, naux, lastRec>>
     /\ Log([a |-> "Clean", obs |-> Obs'])
 
@@ -439,7 +441,7 @@ CloseOpen ==
     /\ logs' = <<>> /\ rpos' = 0 /\ flushedCq' = 0
     /\ nextRid' = 1 /\ nextCid' = 0 /\ lastEnacted' = 1
     /\ durable' = Len(hist)
-    /\ UNCHANGED <<hist, calls, lw, cw, mode, rcv, ncrash, naux, lastRec>>
+    /\ UNCHANGED <<hist, logical, calls, lw, cw, mode, rcv, ncrash, naux, lastRec>>
     /\ Log([a |-> "CloseOpen", obs |-> Obs'])
 
 ----------------------------------------------------------------------------
@@ -467,7 +469,7 @@ Crash ==
     /\ logs' = IF mode = "recovering" THEN logs ELSE CrashLogs
     /\ mode' = "crashed"
     /\ flushedCq' = 0 /\ rpos' = 0
-    /\ UNCHANGED <<hist, calls, nextRid, lastEnacted, tabs, dtabs, durable, rcv, naux, lastRec>>
+    /\ UNCHANGED <<hist, logical, calls, nextRid, lastEnacted, tabs, dtabs, durable, rcv, naux, lastRec>>
     /\ Log([a |-> "Crash"])
 
 \* Power loss (default options: sync_wal): of everything written since a file's last sync an
@@ -489,7 +491,7 @@ PowerLoss(keepLast, tornLast, mix) ==
     /\ dtabs' = tabs'
     /\ mode' = "crashed"
     /\ flushedCq' = 0 /\ rpos' = 0
-    /\ UNCHANGED <<hist, calls, nextRid, lastEnacted, durable, rcv, naux, lastRec>>
+    /\ UNCHANGED <<hist, logical, calls, nextRid, lastEnacted, durable, rcv, naux, lastRec>>
     /\ Log([a |-> "PowerLoss"])
 
 \* Db::open: Log::open orders the files by first record id; last_enacted = first - 1
@@ -501,7 +503,7 @@ RecoverStart ==
     /\ logs' = [i \in 1..Len(NonEmptyLogs) |-> [NonEmptyLogs[i] EXCEPT !.st = "rp"]]
     /\ lastEnacted' = IF NonEmptyLogs = <<>> THEN 1 ELSE NonEmptyLogs[1].recs[1].rid - 1
     /\ rcv' = [f |-> 1, r |-> 0, any |-> FALSE]
-    /\ UNCHANGED <<hist, calls, queue, nextCid, covl, lw, nextRid, rpos, lovl, cw, tabs,
+    /\ UNCHANGED <<hist, logical, calls, queue, nextCid, covl, lw, nextRid, rpos, lovl, cw, tabs,
                    dtabs, flushedCq, durable, ncrash, naux, lastRec>>
     /\ NoLog
 
@@ -520,7 +522,7 @@ RecoverRec ==
                  /\ UNCHANGED <<tabs, lastEnacted>>
        ELSE /\ rcv' = [rcv EXCEPT !.f = @ + 1, !.r = 0]           \* next file
             /\ UNCHANGED <<tabs, lastEnacted>>
-    /\ UNCHANGED <<hist, calls, queue, nextCid, covl, lw, nextRid, logs, rpos, lovl, cw,
+    /\ UNCHANGED <<hist, logical, calls, queue, nextCid, covl, lw, nextRid, logs, rpos, lovl, cw,
                    dtabs, flushedCq, durable, mode, ncrash, naux, lastRec>>
     /\ NoLog
 
@@ -535,6 +537,7 @@ RecoverDone ==
            n == IF P = {} THEN 0 ELSE MaxOf(P) IN
        /\ lastRec' = [n |-> n, lo |-> durable, ok |-> (P # {})]
        /\ hist' = SubSeq(hist, 1, n)
+       /\ logical' = StateAfter(hist, n)
        /\ durable' = n
     /\ dtabs' = tabs
     /\ logs' = <<>>
@@ -554,7 +557,7 @@ CorruptTruncate(f, keep, torn) ==
     /\ torn => keep < Len(logs[f].recs)
     /\ logs' = [logs EXCEPT ![f].recs = SubSeq(@, 1, keep), ![f].partial = torn]
     /\ naux' = naux + 1
-    /\ UNCHANGED <<hist, calls, queue, nextCid, covl, lw, nextRid, rpos, lovl, cw,
+    /\ UNCHANGED <<hist, logical, calls, queue, nextCid, covl, lw, nextRid, rpos, lovl, cw,
                    lastEnacted, tabs, dtabs, flushedCq, durable, mode, rcv, ncrash, lastRec>>
     /\ Log([a |-> "CorruptTruncate", f |-> f, keep |-> keep, torn |-> torn])
 
@@ -564,7 +567,7 @@ CorruptRecord(f, r) ==
     /\ f \in 1..Len(logs) /\ r \in 1..Len(logs[f].recs)
     /\ logs' = [logs EXCEPT ![f].recs[r] = [rid |-> @.rid, h |-> @.h, cid |-> @.cid, w |-> @.w, bad |-> TRUE]]
     /\ naux' = naux + 1
-    /\ UNCHANGED <<hist, calls, queue, nextCid, covl, lw, nextRid, rpos, lovl, cw,
+    /\ UNCHANGED <<hist, logical, calls, queue, nextCid, covl, lw, nextRid, rpos, lovl, cw,
                    lastEnacted, tabs, dtabs, flushedCq, durable, mode, rcv, ncrash, lastRec>>
     /\ Log([a |-> "CorruptRecord", f |-> f, r |-> r])
 
@@ -574,7 +577,7 @@ CorruptDelete(f) ==
     /\ f \in 1..Len(logs)
     /\ logs' = SubSeq(logs, 1, f - 1) \o SubSeq(logs, f + 1, Len(logs))
     /\ naux' = naux + 1
-    /\ UNCHANGED <<hist, calls, queue, nextCid, covl, lw, nextRid, rpos, lovl, cw,
+    /\ UNCHANGED <<hist, logical, calls, queue, nextCid, covl, lw, nextRid, rpos, lovl, cw,
                    lastEnacted, tabs, dtabs, flushedCq, durable, mode, rcv, ncrash, lastRec>>
     /\ Log([a |-> "CorruptDelete", f |-> f])
 
@@ -589,7 +592,7 @@ IoFailAppend(torn) ==
     /\ nextRid' = nextRid + 1
     /\ logs' = IF torn /\ HasApp THEN [logs EXCEPT ![Len(logs)].partial = TRUE] ELSE logs
     /\ mode' = "err"
-    /\ UNCHANGED <<hist, calls, nextCid, covl, lw, rpos, lovl, cw, lastEnacted, tabs,
+    /\ UNCHANGED <<hist, logical, calls, nextCid, covl, lw, rpos, lovl, cw, lastEnacted, tabs,
                    dtabs, flushedCq, durable, rcv, ncrash, naux, lastRec>>
     /\ Log([a |-> "IoFailAppend", obs |-> Obs'])
 
@@ -601,7 +604,7 @@ IoFailEnact(done) ==
        /\ done \subseteq DOMAIN logs[n.f].recs[n.r].w
        /\ tabs' = [l \in Loc |-> IF l \in done THEN logs[n.f].recs[n.r].w[l] ELSE tabs[l]]
     /\ mode' = "err"
-    /\ UNCHANGED <<hist, calls, queue, nextCid, covl, lw, nextRid, logs, rpos, lovl, cw,
+    /\ UNCHANGED <<hist, logical, calls, queue, nextCid, covl, lw, nextRid, logs, rpos, lovl, cw,
                    lastEnacted, dtabs, flushedCq, durable, rcv, ncrash, naux, lastRec>>
     /\ Log([a |-> "IoFailEnact", obs |-> Obs'])
 
@@ -609,7 +612,7 @@ IoFailEnact(done) ==
 IoFailOther ==
     /\ "iofail" \in Feat /\ mode = "open" /\ LwIdle /\ CwIdle
     /\ mode' = "err"
-    /\ UNCHANGED <<hist, calls, queue, nextCid, covl, lw, nextRid, logs, rpos, lovl, cw,
+    /\ UNCHANGED <<hist, logical, calls, queue, nextCid, covl, lw, nextRid, logs, rpos, lovl, cw,
                    lastEnacted, tabs, dtabs, flushedCq, durable, rcv, ncrash, naux, lastRec>>
     /\ Log([a |-> "IoFailOther", obs |-> Obs'])
 
@@ -621,7 +624,7 @@ DropErr ==
     /\ logs' = SelectSeq(logs, LAMBDA f : f.st # "cq")
     /\ mode' = "crashed"
     /\ flushedCq' = 0 /\ rpos' = 0
-    /\ UNCHANGED <<hist, calls, nextRid, lastEnacted, tabs, dtabs, durable, rcv, ncrash,
+    /\ UNCHANGED <<hist, logical, calls, nextRid, lastEnacted, tabs, dtabs, durable, rcv, ncrash,
                    naux, lastRec>>
     /\ Log([a |-> "DropErr"])
 
@@ -650,6 +653,7 @@ Spec == Init /\ [][Next]_vars
 (* Properties *)
 
 TypeOK ==
+    /\ logical = StateAfter(hist, Len(hist))
     /\ mode \in {"open", "crashed", "recovering", "err"}
     /\ lw.pc \in {"idle", "planned", "ended"}
     /\ cw.pc \in {"idle", "writing", "written"}
@@ -690,10 +694,10 @@ WalBeforeApply ==
 
 \* hide the history variable (and the bookkeeping that depends on it only through reads)
 \* for configs without crashes the history matters only through the logical state
-ViewLogical == <<Logical, calls, queue, nextCid, covl, lw, nextRid, logs, rpos, lovl, cw,
+ViewLogical == <<logical, calls, queue, nextCid, covl, lw, nextRid, logs, rpos, lovl, cw,
                  lastEnacted, tabs, dtabs, flushedCq, durable, mode, rcv, ncrash, naux, lastRec>>
 
-ViewNoTrace == <<hist, calls, queue, nextCid, covl, lw, nextRid, logs, rpos, lovl, cw,
+ViewNoTrace == <<hist, logical, calls, queue, nextCid, covl, lw, nextRid, logs, rpos, lovl, cw,
                  lastEnacted, tabs, dtabs, flushedCq, durable, mode, rcv, ncrash, naux, lastRec>>
 
 =============================================================================
